@@ -21,7 +21,7 @@ RULE = ("(encoder level) for every setting of ET, DT and the register-addressed 
 ASSUMPTIONS = ["values whose encoding is the type's 'no value' sentinel (Integer 65535, Voltage/Current 6553.5, Long 2^32-1) are "
                "outside the readable domain: only the write part is asserted for them",
                "ES: only the register-addressed settings (eco-mode groups and switches; 011A/0239 over AA55 for v1, Modbus for v2)"]
-MUST = ["refused_writes", "dt_phase_pairs", "encoder_values", "e2e_writes", "e2e_readbacks", "byte_settings_rmw", "negative_values", "multi_register_writes",
+MUST = ["refused_writes", "refused_rmw_reads", "byte_setting_already_holds_value", "dt_phase_pairs", "encoder_values", "e2e_writes", "e2e_readbacks", "byte_settings_rmw", "negative_values", "multi_register_writes",
         "aa55_writes", "tcp_writes", "settings_covered"]
 EXHAUSTIVE = {"quick": False, "thorough": False}
 
@@ -213,6 +213,12 @@ def e2e_part(spec, part):
                 # arbitrary prior contents around and inside the setting's registers
                 for a in range(sn.offset - 2, sn.offset + nregs + 2):
                     sim.regs[a] = rnd.choice((rnd.randrange(65536), rnd.randrange(65536), 0xFFFF, 0x0000, 0xFF00, 0x00FF, 0x7FFF, 0x8000))
+                if span == 1 and rnd.random() < 0.25 and isinstance(v, int) and -128 <= v <= 255:
+                    # the setting's byte already holds the value that is going to be written (still exactly one write is due)
+                    own_hi = type(sn).__name__.endswith("H")
+                    cur = sim.regs[sn.offset]
+                    sim.regs[sn.offset] = ((v & 0xFF) << 8 | (cur & 0xFF)) if own_hi else ((cur & 0xFF00) | (v & 0xFF))
+                    part.count("byte_setting_already_holds_value")
                 prior = sim.get_bytes(sn.offset, nregs)
                 before = sim.snapshot()
                 w0 = len(sim.writes)
@@ -222,6 +228,27 @@ def e2e_part(spec, part):
                     # the inverter refuses this write with a Modbus exception other than ILLEGAL DATA ADDRESS: write_setting must not
                     # report success (the premise "after write_setting succeeds" would otherwise be claimed for a write never performed)
                     code = rnd.choice((3, 4, 6))
+                    if span == 1 and rnd.random() < 0.5:
+                        # ... or it refuses the READ half of the read-modify-write of a one-byte setting and would accept the write
+                        sim.exc_map[(3, sn.offset, 1)] = code
+                        try:
+                            await inv.write_setting(sn.id_, v)
+                            rmw = "returned normally"
+                        except Exception:       # noqa
+                            rmw = None
+                        del sim.exc_map[(3, sn.offset, 1)]
+                        part.count("refused_rmw_reads")
+                        after_ = sim.snapshot()
+                        if rmw and {a for a in set(before) | set(after_) if before.get(a) != after_.get(a)} - {sn.offset}:
+                            part.violate(f"C17/{fam}/foreign-register-changed", f"{tagtxt}: write_setting('{sn.id_}', {v!r}) with the register read refused", case)
+                        elif rmw and len(sim.writes) > w0:
+                            new, old = sim.regs[sn.offset], int.from_bytes(prior[:2], "big")
+                            other_kept = (new & 0x00FF) == (old & 0x00FF) if type(sn).__name__.endswith("H") else (new & 0xFF00) == (old & 0xFF00)
+                            if not other_kept:
+                                part.violate(f"C17/{fam}/other-half-of-register-changed",
+                                             f"{tagtxt}: the read of register {sn.offset} was refused (exception {code}), write_setting('{sn.id_}', {v!r}) went on and "
+                                             f"changed the register from {old:04x} to {new:04x}: the other byte was not preserved", case)
+                        continue
                     sim.exc_map[(6, sn.offset)] = sim.exc_map[(16, sn.offset)] = code
                     try:
                         await inv.write_setting(sn.id_, v)
